@@ -876,6 +876,13 @@ func (as *AbacoSource) Sample() error {
 		as.distributePackets(results.allpackets, now)
 	}
 
+	// No data packets at all (e.g. the hardware is not sending yet): the start cannot succeed. Release the
+	// devices opened above, or the UDP sockets would stay bound and every later start would fail to bind.
+	if len(as.groups) == 0 {
+		as.closeDevices()
+		return fmt.Errorf("no Abaco data packets arrived while sampling; is the hardware sending data?")
+	}
+
 	// Verify that no channel # appears in 2 groups.
 	known := make(map[int]bool)
 	for _, g := range as.groups {
